@@ -44,7 +44,7 @@ func propC14(c c14Case) hh.Verdict {
 			return hh.Fail("[%s] panic: %v (input %s)", fe, res.Panic, text)
 		}
 		got := res.Norm(false)
-		if !model.EqualIss(got, spec.Issues) {
+		if !model.EqualIssSpec(got, spec.Issues) {
 			return hh.Fail("[%s] issues differ from the record's specification: got %s want %s (input %s)", fe, fmtIss(got), fmtIss(spec.Issues), text)
 		}
 		o := obs{fe: fe, ok: len(got) == 0, n: len(got)}
